@@ -552,7 +552,7 @@ func checkC19(c *Ctx) {
 	c19StringTags(c, decls, info, "R19f")
 
 	// ---------------- R19g
-	c19Required(c, decls, info)
+	c19Required(c, decls, info, "R19g", false)
 	c19ContainerRulesReached(c, decls, info)
 	c19RequiredDependsOnRuleOnly(c)
 }
@@ -624,15 +624,15 @@ func c19ValueSource(info *types.Info, body *ast.BlockStmt, e ast.Expr) string {
 }
 
 // c19Required: R19g.
-func c19Required(c *Ctx, decls map[*types.Func]*ast.FuncDecl, info *types.Info) {
+func c19Required(c *Ctx, decls map[*types.Func]*ast.FuncDecl, info *types.Info, rid string, onlyOver bool) {
 	r := c.R
 	req := c.P.Func(pkgOpenAPI, "checkIfFieldRequired")
 	if req == nil {
-		r.Unres("R19g", "checkIfFieldRequired", "", "not found")
+		r.Unres(rid, "checkIfFieldRequired", "", "not found")
 		return
 	}
 	// checkIfFieldRequired returns GetRequired()
-	{
+	if !onlyOver {
 		decl := c.P.Decls[req]
 		okR := false
 		for _, st := range decl.Body.List {
@@ -640,7 +640,7 @@ func c19Required(c *Ctx, decls map[*types.Func]*ast.FuncDecl, info *types.Info) 
 				okR = true
 			}
 		}
-		r.Check(okR, "R19g", "checkIfFieldRequired answers with FieldRules.GetRequired()", c.P.Pos(decl.Pos()), "checkIfFieldRequired does not end in `return fieldConstraints.GetRequired()`")
+		r.Check(okR, rid, "checkIfFieldRequired answers with FieldRules.GetRequired()", c.P.Pos(decl.Pos()), "checkIfFieldRequired does not end in `return fieldConstraints.GetRequired()`")
 	}
 	canon := func(body *ast.BlockStmt, e ast.Expr) string {
 		e = ast.Unparen(e)
@@ -692,7 +692,7 @@ func c19Required(c *Ctx, decls map[*types.Func]*ast.FuncDecl, info *types.Info) 
 			}
 			key := fmt.Sprintf("%s: property %s of %s", fn.Name(), nameC, fieldVar)
 			if loop == nil {
-				r.Unres("R19g", key, c.P.Pos(call.Pos()), "property set outside a loop over fields")
+				r.Unres(rid, key, c.P.Pos(call.Pos()), "property set outside a loop over fields")
 				return true
 			}
 			found, sameName := false, false
@@ -720,19 +720,27 @@ func c19Required(c *Ctx, decls map[*types.Func]*ast.FuncDecl, info *types.Info) 
 				})
 				return true
 			})
-			if why, ok := c19RequiredExceptions[fn.Name()+"/"+fieldVar]; ok && !found {
-				r.OKd("R19g", key+" (reasoned exception)", c.P.Pos(call.Pos()), map[string]any{"exception": why})
+			if why, ok := c19RequiredExceptions[fn.Name()+"/"+fieldVar]; ok {
+				if found {
+					r.Bad(rid, key+" (must not be listed as required)", c.P.Pos(call.Pos()),
+						fmt.Sprintf("%s lists %s in required under checkIfFieldRequired(%s), but the key is absent from every body in which the enclosing field is unset: the schema rejects bodies the rules and the generated code accept (%s)", fn.Name(), nameC, fieldVar, why), nil)
+				} else {
+					r.OKd(rid, key+" (reasoned exception)", c.P.Pos(call.Pos()), map[string]any{"exception": why})
+				}
+				return true
+			}
+			if onlyOver {
 				return true
 			}
 			switch {
 			case !found:
-				r.Bad("R19g", key, c.P.Pos(call.Pos()),
+				r.Bad(rid, key, c.P.Pos(call.Pos()),
 					fmt.Sprintf("%s sets property %s from %s but never consults checkIfFieldRequired(%s): a field the rules require is not listed in required (the schema accepts bodies the rules reject)", fn.Name(), nameC, fieldVar, fieldVar), nil)
 			case !sameName:
-				r.Bad("R19g", key, c.P.Pos(call.Pos()),
+				r.Bad(rid, key, c.P.Pos(call.Pos()),
 					fmt.Sprintf("%s sets property %s but lists %s in required: the required name is not a property of the schema, every valid body fails `required`", fn.Name(), nameC, appended), nil)
 			default:
-				r.OK("R19g", key, c.P.Pos(call.Pos()))
+				r.OK(rid, key, c.P.Pos(call.Pos()))
 			}
 			return true
 		})
